@@ -295,6 +295,9 @@ func (runInfo *runInfoStruct) invokeUnaryExpr(expr *ast.UnaryExpr) {
 	if runInfo.err != nil {
 		return
 	}
+	if runInfo.rv.Kind() == reflect.Interface && !runInfo.rv.IsNil() {
+		runInfo.rv = runInfo.rv.Elem()
+	}
 
 	switch expr.Operator {
 	case "-":
